@@ -44,6 +44,42 @@ def premap_scripts(rng, tier):
     return out
 
 
+def late_auth_with_relations(rng, tier):
+    """a relationship registered with sync_related_entities groups entities; a client is authorized AFTER the groups were last
+    rebuilt (no relation changes afterwards) and then members of a group mutate: the late client must be served like the others"""
+    out = []
+    for i in range(20 if tier == "quick" else 800):
+        ncl = rng.choice([2, 3])
+        lines = ["cfg policy=%s auth=custom track=%d nclients=%d timeout=10000 rel=1" % (rng.choice(["all", "all", "black"]), rng.randrange(2), ncl), "start", "sframe 0 10"]
+        for c in range(ncl):
+            lines.append("connect %d 1200" % c)
+        lines.append("authorize 0")
+        nent = rng.randrange(3, 6)
+        for e in range(1, nent + 1):
+            lines.append("sop spawn %d 1 0=%d 1=%d" % (e, rng.randrange(50), rng.randrange(50)))
+        for e in range(2, nent + 1):
+            if rng.random() < 0.7:
+                lines.append("sop rel %d %d" % (e, rng.randrange(1, e)))
+        for _ in range(rng.randrange(1, 3)):
+            lines += ["sframe 1 16", "deliver 0 s2c 0 all", "deliver 0 s2c 1 all", "cframe 0", "deliver 0 c2s 0 all"]
+        late = list(range(1, ncl))
+        val = 100
+        for c in late:
+            lines.append("authorize %d" % c)
+            for _ in range(rng.randrange(1, 3)):
+                lines.append("sframe 1 16")
+                for cc in range(ncl):
+                    lines += ["deliver %d s2c 0 all" % cc, "deliver %d s2c 1 all" % cc, "cframe %d" % cc, "deliver %d c2s 0 all" % cc]
+            for e in rng.sample(range(1, nent + 1), rng.randrange(1, nent + 1)):
+                val += 1
+                lines.append("sop mutate %d %d=%d" % (e, rng.randrange(2), val))
+            lines.append("sframe 1 16")
+        meta = dict(connected=list(range(ncl)), events=False, authorized=list(range(ncl)))
+        sf = len(lines)
+        out.append(("late-auth-rel-%d" % i, lines + gen_scripts.settle_lines(meta), sf, {"C07", "C01"}))
+    return out
+
+
 def backend_mismatch(rep, rng, tier):
     """implementation only, through the REAL example backend (the request to disconnect is carried out by the backend's own
     system in ServerSet::SendPackets): a client with a differing protocol between ticks"""
@@ -63,8 +99,8 @@ def backend_mismatch(rep, rng, tier):
 
 def run(tier, seed, replay):
     kws = [dict(auth="custom", events=True), dict(auth="proto", events=True, nclients=2), dict(auth="proto", events=True, nclients=3, weights=dict(session=0.6)),
-           dict(auth="custom", policy="white", events=True), dict(auth="none", events=True), dict(auth="proto", nclients=2, sessions=True)]
-    return sim_check("C07", tier, seed, kws, n_quick=200, n_thorough=20000, oracle_props={"C07"}, impl_only_scripts=premap_scripts,
+           dict(auth="custom", policy="white", events=True), dict(auth="none", events=True), dict(auth="proto", nclients=2, sessions=True), dict(auth="custom", rel=True, nclients=2, weights=dict(sop=7.0))]
+    return sim_check("C07", tier, seed, kws, n_quick=200, n_thorough=20000, oracle_props={"C07"}, impl_only_scripts=premap_scripts, custom_scripts=late_auth_with_relations,
                      impl_only_label="a filled ClientEntityMap inserted on a connected client before it is authorized (the documented pre-mapping), then events and replication traffic, then authorization",
                      rule_extra=", clients that are authorized late or never (custom authorization), server events of every kind emitted in arbitrary frames",
                      extra_assumptions=["all three authorization methods are exercised; under the default protocol check the moment of authorization is an oracle input of the model (taken from the observed run), "
